@@ -198,6 +198,7 @@ type Producer struct {
 	TolerateReject                          bool
 	nonce                                   uint32
 	closeOnce                               sync.Once
+	guard                                   *closeGuard
 	pending                                 map[util.Uint256]func()
 	probes                                  map[util.Uint256]string
 	names                                   int
@@ -212,7 +213,30 @@ type Producer struct {
 const MaxDeploys = 20
 
 // Close stops the producer chain (idempotent).
-func (p *Producer) Close() { p.closeOnce.Do(p.BC.Close) }
+func (p *Producer) Close() {
+	p.closeOnce.Do(func() {
+		p.BC.Close()
+		if p.guard != nil {
+			p.guard.mu.Lock()
+			p.guard.p = nil
+			p.guard.mu.Unlock()
+		}
+	})
+}
+
+type closeGuard struct {
+	mu sync.Mutex
+	p  *Producer
+}
+
+func (g *closeGuard) run() {
+	g.mu.Lock()
+	p := g.p
+	g.mu.Unlock()
+	if p != nil {
+		p.Close()
+	}
+}
 
 // DetKey derives a deterministic private key.
 func DetKey(label string, i int) *keys.PrivateKey {
@@ -245,7 +269,10 @@ func NewProducer(t testing.TB, cfg ProducerConfig) *Producer {
 		t.Fatalf("producer: %v", err)
 	}
 	p := &Producer{T: t, Cfg: cfg, TolerateReject: cfg.TolerateReject, BC: bc, Val: val, Com: com, R: rng.New(cfg.Stream), Kinds: map[string]int{}, TxKinds: map[util.Uint256]string{}, pending: map[util.Uint256]func(){}}
-	t.Cleanup(p.Close)
+	// a forgotten producer is closed when the test ends; a closed one must not be
+	// kept alive by the test's cleanup list (its chain is several megabytes)
+	p.guard = &closeGuard{p: p}
+	t.Cleanup(p.guard.run)
 	p.E = neotest.NewExecutor(t, bc, val, com)
 	p.GasH, p.NeoH, p.PolH, p.MgmtH, p.RoleH, p.NotaryH = nativehashes.GasToken, nativehashes.NeoToken, nativehashes.PolicyContract, nativehashes.ContractManagement, nativehashes.RoleManagement, nativehashes.Notary
 	for i := 0; i < cfg.Users; i++ {
